@@ -216,7 +216,7 @@ func runSeq(b SeqBeh, idx int) *SeqMismatch {
 	if err != nil {
 		return &SeqMismatch{Beh: idx, What: "setup", Got: err.Error(), Input: &b}
 	}
-	if err := e.qb.Start(context.Background(), e.host); err != nil {
+	if err := startC(func(sc context.Context) error { return e.qb.Start(sc, e.host) }); err != nil {
 		return &SeqMismatch{Beh: idx, What: "start", Got: err.Error(), Input: &b}
 	}
 	defer func() {
@@ -401,7 +401,7 @@ func lonelyRound(rng *rand.Rand, round int, emit func(Ev)) bool {
 	}
 	c := cfg
 	log(Ev{Ev: "reset", Round: round, Cfg: &c, Reqs: []string{"A", "B", "C", "D"}, Sizes: []int64{1, 1, 1, 1}})
-	if err := e.qb.Start(context.Background(), e.host); err != nil {
+	if err := startC(func(sc context.Context) error { return e.qb.Start(sc, e.host) }); err != nil {
 		return true
 	}
 	offer := func(p int, name string, ctx context.Context, cancel bool) string {
@@ -526,7 +526,7 @@ func idleRound(rng *rand.Rand, round int, emit func(Ev)) bool {
 	}
 	c := cfg
 	log(Ev{Ev: "reset", Round: round, Cfg: &c, Heavy: true})
-	if err := e.qb.Start(context.Background(), e.host); err != nil {
+	if err := startC(func(sc context.Context) error { return e.qb.Start(sc, e.host) }); err != nil {
 		return true
 	}
 	time.Sleep(time.Duration(200+rng.Intn(2000)) * time.Microsecond) // let the consumers park
@@ -719,7 +719,7 @@ func stressRound(rng *rand.Rand, round int, emit func(Ev)) bool {
 		names, sizes = nil, nil
 	}
 	log(Ev{Ev: "reset", Round: round, Cfg: &c, Reqs: names, Sizes: sizes, Heavy: heavy})
-	if err := e.qb.Start(context.Background(), e.host); err != nil {
+	if err := startC(func(sc context.Context) error { return e.qb.Start(sc, e.host) }); err != nil {
 		log(Ev{Ev: "note", Res: err.Error()})
 		return true
 	}
@@ -868,4 +868,12 @@ func main() {
 		fmt.Fprintln(os.Stderr, err)
 		os.Exit(3)
 	}
+}
+
+// startC calls a component's Start with a context that is cancelled as soon as Start has returned: component.Component
+// says that context "will be cancelled soon", so nothing that has to outlive Start may depend on it.
+func startC(start func(context.Context) error) error {
+	ctx, cancel := context.WithCancel(context.Background())
+	defer cancel()
+	return start(ctx)
 }
